@@ -121,7 +121,7 @@ func (e *Engine) verifyFunc(key string) (vc *VC, err error) {
 				vc.assumed["assumed postcondition of "+key+": "+en.Src] = true
 				continue
 			}
-			t, err := fr.evalClause(en, &evalCtx{fr: fr, st: fr.st, old: fr.entry, names: rn})
+			t, err := fr.evalClause(en, &evalCtx{fr: fr, st: fr.st, old: fr.entry, names: rn, region: fr.st.region})
 			if err != nil {
 				if ri == 0 {
 					fr.stale(clauseName("ensures", i, en), err)
@@ -130,7 +130,7 @@ func (e *Engine) verifyFunc(key string) (vc *VC, err error) {
 			}
 			o := fr.oblige("ensures", clauseName("ensures", i, en), implies(and(provenEns...), t))
 			o.Note = en.Src
-			if ta, err := fr.evalClause(en, &evalCtx{fr: fr, st: fr.st, old: fr.entry, names: rn, assuming: true}); err == nil {
+			if ta, err := fr.evalClause(en, &evalCtx{fr: fr, st: fr.st, old: fr.entry, names: rn, assuming: true, region: fr.st.region}); err == nil {
 				provenEns = append(provenEns, ta)
 			}
 		}
@@ -212,6 +212,14 @@ func (e *Engine) frameObligations(fr *Frame, c *Contract, names map[string]*Val)
 			continue // ghost state
 		}
 		if whole[h] {
+			continue
+		}
+		if ls := fr.eng.guardedBy[h]; ls != nil && fr.topFrame().acquired[ls] {
+			// the function took the lock guarding this field: other threads may
+			// have written it, so "unchanged since entry" is not a meaningful
+			// frame; what the function itself does to it is stated by its
+			// unlock clauses and the lock invariant
+			vc.abstracted("frame of lock-guarded fields of a function that takes the lock is expressed by its unlock clauses, not by modifies")
 			continue
 		}
 		if strings.HasPrefix(h, "G$") {
